@@ -15,13 +15,42 @@ type wrappedCodecRegistry struct {
 	typ   reflect.Type
 	tag   string
 	codec Codec
+	// pending holds codecs built while the struct codec is still under
+	// construction. They may refer to the incomplete struct codec, so they
+	// must not be visible to other goroutines until it is complete.
+	pending map[pendingKey]Codec
+}
+
+type pendingKey struct {
+	typ reflect.Type
+	tag string
 }
 
 func (w wrappedCodecRegistry) Load(typ reflect.Type, tag string) Codec {
 	if typ == w.typ && tag == w.tag {
 		return w.codec
 	}
+	if c, ok := w.pending[pendingKey{typ: typ, tag: tag}]; ok {
+		return c
+	}
 	return w.CodecRegistry.Load(typ, tag)
+}
+
+func (w wrappedCodecRegistry) StoreOrSwap(typ reflect.Type, tag string, c Codec) Codec {
+	k := pendingKey{typ: typ, tag: tag}
+	if existing, ok := w.pending[k]; ok {
+		return existing
+	}
+	w.pending[k] = c
+	return c
+}
+
+// publish hands the codecs built during construction to the parent registry
+// now that the struct codec they may refer to is complete.
+func (w wrappedCodecRegistry) publish() {
+	for k, c := range w.pending {
+		w.CodecRegistry.StoreOrSwap(k.typ, k.tag, c)
+	}
 }
 
 func BuildStructCodec(p CodecBuilder, registry CodecRegistry, typ reflect.Type, tag string) (Codec, error) {
@@ -34,7 +63,8 @@ func BuildStructCodec(p CodecBuilder, registry CodecRegistry, typ reflect.Type, 
 		fields: make([]description, typ.NumField()),
 	}
 
-	registry = wrappedCodecRegistry{CodecRegistry: registry, typ: typ, tag: tag, codec: &c}
+	wrapped := wrappedCodecRegistry{CodecRegistry: registry, typ: typ, tag: tag, codec: &c, pending: map[pendingKey]Codec{}}
+	registry = wrapped
 
 	var maxIndex int
 	var count int
@@ -115,6 +145,8 @@ func BuildStructCodec(p CodecBuilder, registry CodecRegistry, typ reflect.Type, 
 			offset: f.offset,
 		}
 	}
+
+	wrapped.publish()
 
 	return &c, nil
 }
